@@ -1266,7 +1266,10 @@ def c02(r):
     r.cov["distinct_nontrivial"] = n
     r.cov["exhaustive"] = True
     def modern(e):
-        return e["p"] == 0 and e["y"] >= 1935
+        # a year the leap rule is judged in (the specification leaves years with an event within a minute of midnight open)
+        return (e["p"] == 0 and e["y"] >= 1935
+                and all(e["terms"][2 * k - 1][2] >= 60 for k in range(1, 14))
+                and all(abs(x[0]) >= 9000 and abs(x[1]) >= 9000 for x in e["nm"]))
     def shift_first(e):
         if not modern(e): return False
         e["t"][5][3] += 1            # a month that starts one day late
